@@ -103,7 +103,7 @@ Proof. pystart. unfold Frame.hdr_find. pyrun. Qed.
 (** * hdr_decode *)
 Lemma hdr_decode_func n d :
   call_func program (S (S n)) SerialFrame_hdr_decode [sf; PBytes d] [] =
-  do v <- emb_hdr (Frame.hdr_decode d); PyLite.Ok (v, Some sf).
+  do v <- attach (self_st sf) (emb_hdr (Frame.hdr_decode d)); PyLite.Ok (v, Some sf).
 Proof. pystart. unfold Frame.hdr_decode. pyrun. Qed.
 
 Lemma hdr_decode_func_None n :
@@ -139,7 +139,7 @@ Proof. pystart. pyrun. Qed.
 (** * frame_decode *)
 Lemma frame_decode_func n d :
   call_func program (S (S (S n))) SerialFrame_frame_decode [sf; PBytes d] [] =
-  do v <- emb_frame (Frame.frame_decode d); PyLite.Ok (v, Some sf).
+  do v <- attach (self_st sf) (emb_frame (Frame.frame_decode d)); PyLite.Ok (v, Some sf).
 Proof. pystart. unfold Frame.frame_decode. pyrun. Qed.
 
 #[local] Hint Resolve frame_decode_func : pyspec.
